@@ -397,7 +397,7 @@ def _r4(run):
     # does any entry point exclude depth 0?
     sl = project.fn(T + ".sample_layer")
     excl = any(isinstance(n, ast.If) and "depth" in ast.unparse(n.test) and any(isinstance(y, ast.Raise) for y in ast.walk(n)) for n in own_nodes(sl.node))
-    leaf_pass = project.fn(P + ".Pyramid._visit_leaves_serial")
+    leaf_pass = common.splice(project, project.fn(P + ".Pyramid._visit_leaves_serial"))
     run.note_func(g, vc, gc, sl, leaf_pass)
     if none_yields and uses and deref and not guarded and not excl:
         run.violated("C06.R4", vc, uses[0], "path: Pyramid._generator yields (Pos(0,0,0), None) for a TOAST pyramid -> PyramidReductionIterator.__next__ "
